@@ -73,6 +73,8 @@ def cases(rng, tier):
         else:
             c['L'] = rng.choice([1, 2, 3, 4, 5, 6, 7]); c['ftype'] = rng.choice(['c', 'a', 'create', 'annihil'])
         _magnitude(rng, c)
+        if rng.random() < 0.15:
+            c['twice'] = True
         out.append(c)
     # correspondence-only cases (no dense reference): every model for L in 1..7, parameters with zeros / ones / sign changes
     m = {'quick': 140, 'thorough': 700, 'search': 0}[tier]
@@ -217,6 +219,17 @@ def impl(case):
     warnings.simplefilter('ignore')
     cap = {}
     try:
+        if case.get('twice'):
+            # an earlier result of the same constructor call is modified in place (charges switched off, tensors rescaled,
+            # orthonormalised) before the call that is judged: constructors must not hand out shared state
+            H0 = build(case)[0]
+            try:
+                H0.zero_qnumbers()
+                for a in H0.A:
+                    a *= 3
+                H0.orthonormalize(mode='left')
+            except Exception:
+                pass
         with _Hooks(cap):
             H, ref, d = build(case)
     except Exception as e:
